@@ -271,7 +271,7 @@ func c19stat(c *fw.Ctx, cfg c19cfg, cfgNo int) {
 }
 
 func runC19(c *fw.Ctx) {
-	n := c.Pick(1500, 25000)
+	n := c.Pick(1500, 120000)
 	for k := 0; k < n; k++ {
 		if !c.Begin(k) {
 			continue
